@@ -302,7 +302,7 @@ func CheckMain(args []string) int {
 					rf.SMTFile = dst
 				}
 			}
-			if o.Result == "sat" && len(o.Model) > 0 {
+			if (o.Result == "sat" && len(o.Model) > 0) || replayWithoutModel(o) {
 				TryReplay(repo, rf)
 			}
 			report(rf)
